@@ -18,6 +18,7 @@ import (
 	"io"
 	"os"
 	"path/filepath"
+	"reflect"
 	"strconv"
 	"strings"
 	"sync"
@@ -99,6 +100,11 @@ type c17Case struct {
 	verifyDiscard int64 // >=0: the next read is the post-DiscardUpto sweep for that offset
 	lastBufferFull bool
 	noPost bool
+	hdr       int64 // bytes of the file header (measured on the fresh file): physical content length = stat size - hdr
+	flushMark int64 // generator aid: the oracle's size at the last accepted Flush/Sync/(re)open (-1: none) — the boundary
+	                // between what has reached the file and what is only in the write buffer
+	tail      bool  // generator profile "buffer tail": small appends that stay in the write buffer, frequent Flush
+	                // WITHOUT Sync, rewinds and reads aimed at the last buffer-full of bytes
 
 	ops []string
 }
@@ -184,7 +190,9 @@ func (c *c17Case) exec(line string) (ans string, err error) {
 		if e := recover(); e != nil {
 			tk := strings.Fields(line)
 			c.fail(tk[0], "panic", fmt.Sprintf("%s panicked: %v", line, e))
-			ans, err = "panic", fmt.Errorf("panic in %s: %v", line, e)
+			c.r.Count("case.aborted-by-panic")
+			// the failure is recorded; only this case ends here (its pending model lines stay comparable up to this op)
+			ans, err = "panic", fmt.Errorf("%w: %s: %v", errC17Abort, line, e)
 		}
 	}()
 	tk := strings.Fields(line)
@@ -216,6 +224,7 @@ func (c *c17Case) exec(line string) (ans string, err error) {
 		if c.kind == "m" && c.prealloc != 0 {
 			c.preFloor = sz
 		}
+		c.hdr, c.flushMark = c.measureHeader(sz), sz
 		r.OracleChecks++
 		want := int64(0)
 		if c.kind == "s" {
@@ -255,9 +264,14 @@ func (c *c17Case) exec(line string) (ans string, err error) {
 		}
 	case "setoff":
 		off, _ := strconv.ParseInt(tk[1], 10, 64)
+		r.Count("setoff.state." + c.setoffClass(off))
+		behind := c.bytesBehind(off)
 		e := c.app.SetOffset(off)
 		ans = c17Err(e)
-		c.oracleSetOffset(off, ans)
+		if c.oracleSetOffset(off, ans, behind) {
+			// an accepted rewind: the new end of the log must be visible at once through Offset() and Size()
+			post = append(post, c.kind+".offset", c.kind+".size")
+		}
 	case "discard":
 		off, _ := strconv.ParseInt(tk[1], 10, 64)
 		e := c.app.DiscardUpto(off)
@@ -275,6 +289,9 @@ func (c *c17Case) exec(line string) (ans string, err error) {
 		}
 		ans = c17Err(e)
 		c.expectErr(strings.ToUpper(op[:1])+op[1:], ans, c.stdErr(true))
+		if e == nil {
+			c.flushMark = c.size()
+		}
 	case "ro":
 		e := c.app.SwitchToReadOnlyMode()
 		ans = c17Err(e)
@@ -343,6 +360,7 @@ func (c *c17Case) exec(line string) (ans string, err error) {
 		ans = fmt.Sprint(sz)
 		c.closed, c.readOnly = false, ro
 		c.oracleReopenSize("reopen", c.app, sz)
+		c.flushMark = sz
 		if c.kind == "m" && c.prealloc != 0 {
 			c.preFloor = sz
 		}
@@ -432,6 +450,73 @@ func (c *c17Case) exec(line string) (ans string, err error) {
 		}
 	}
 	return ans, nil
+}
+
+// c17BufState reads (for the DISTRIBUTION counters only, never for the oracle) the write-buffer bookkeeping of the
+// single-file appendable that takes the writes: fileOffset, wbufFlushedOffset, wbufUnwrittenOffset. ok=false when the
+// fields cannot be found (renamed / other implementation).
+func c17BufState(app appendable.Appendable) (fileOffset, flushed, unwritten int64, ok bool) {
+	defer func() {
+		if recover() != nil {
+			ok = false
+		}
+	}()
+	v := reflect.ValueOf(app)
+	if _, isMulti := app.(*multiapp.MultiFileAppendable); isMulti {
+		v = v.Elem().FieldByName("currApp").Elem()
+	}
+	if v.Type() != reflect.TypeOf((*singleapp.AppendableFile)(nil)) {
+		return 0, 0, 0, false
+	}
+	v = v.Elem()
+	return v.FieldByName("fileOffset").Int(), int64(v.FieldByName("wbufFlushedOffset").Int()), int64(v.FieldByName("wbufUnwrittenOffset").Int()), true
+}
+
+func c17CurrAppID(app appendable.Appendable) (id int64, ok bool) {
+	defer func() {
+		if recover() != nil {
+			ok = false
+		}
+	}()
+	return reflect.ValueOf(app).Elem().FieldByName("currAppID").Int(), true
+}
+
+// setoffClass: which branch of singleapp.SetOffset the call is about to take, and whether a flushed-but-unsynced
+// prefix is still held in the write buffer (retryable sync) at that moment.
+func (c *c17Case) setoffClass(off int64) string {
+	if c.closed || c.readOnly || c.app == nil {
+		return "rejected(closed|readonly)"
+	}
+	fo, fl, un, ok := c17BufState(c.app)
+	if !ok {
+		return "n/a"
+	}
+	local := off
+	if c.kind == "m" && off >= 0 {
+		id, ok := c17CurrAppID(c.app)
+		if !ok {
+			return "n/a"
+		}
+		if off/int64(c.fileSize) != id {
+			return "other-chunk"
+		}
+		local = off % int64(c.fileSize)
+	}
+	cur := fo + (un - fl)
+	held := "flushed=0"
+	if fl > 0 {
+		held = "flushed>0"
+	}
+	switch {
+	case off < 0 || local > cur:
+		return "rejected(range)"
+	case local == cur:
+		return held + ".noop"
+	case local >= fo:
+		return held + ".in-memory-rewind"
+	default:
+		return held + ".file-rewind"
+	}
 }
 
 // closed / read-only error expected by the interface for a mutating call
@@ -706,10 +791,52 @@ func (c *c17Case) oracleReadEntry(site string, bs []byte, off int64, n int, got 
 	c.fail(site, "wrong-bytes", desc)
 }
 
-func (c *c17Case) oracleSetOffset(off int64, got string) {
+// measureHeader: length of the file header of a fresh appendable whose Size() is sz (singleapp: the file; multiapp: chunk 0)
+func (c *c17Case) measureHeader(sz int64) int64 {
+	p := c.path
+	if c.kind == "m" {
+		p = filepath.Join(c.path, fmt.Sprintf("%08d.aof", 0))
+	}
+	st, err := os.Stat(p)
+	if err != nil {
+		return -1
+	}
+	return st.Size() - sz
+}
+
+// bytesBehind reports whether the FILE SYSTEM holds bytes at or after the rewind target `off` (file of the single
+// appendable / chunk file of `off` longer than the target, or a later chunk file exists). Only then can rolled-back
+// bytes be served by a later read or reappear after a reopen (known classes stale-bytes-after-rewind /
+// stale-tail-after-SetOffset); a rewind inside the write buffer leaves nothing behind, so every deviation after it is
+// a NEW failure. Plain os.Stat/os.ReadDir, independent of the code under test and of the Lean model; any doubt => true.
+func (c *c17Case) bytesBehind(off int64) bool {
+	if c.hdr < 0 || off < 0 || c.app == nil {
+		return true
+	}
+	if c.kind == "s" {
+		st, err := os.Stat(c.path)
+		return err != nil || off < st.Size()-c.hdr
+	}
+	id := off / int64(c.fileSize)
+	ents, err := os.ReadDir(c.path)
+	if err != nil {
+		return true
+	}
+	for _, en := range ents {
+		n, err := strconv.ParseInt(strings.TrimSuffix(en.Name(), filepath.Ext(en.Name())), 10, 64)
+		if err != nil || n > id {
+			return true
+		}
+	}
+	st, err := os.Stat(filepath.Join(c.path, fmt.Sprintf("%08d.aof", id)))
+	return err != nil || off%int64(c.fileSize) < st.Size()-c.hdr
+}
+
+// returns true when the call was an accepted, actually rewinding SetOffset
+func (c *c17Case) oracleSetOffset(off int64, got string, behind bool) bool {
 	c.r.OracleChecks++
 	if c.broken {
-		return
+		return false
 	}
 	want := c.stdErr(true)
 	size := c.size()
@@ -725,14 +852,14 @@ func (c *c17Case) oracleSetOffset(off int64, got string) {
 		// rewinding into the discarded prefix is outside the contract
 		c.r.Count("setoff.into-discarded(not-claimed)")
 		c.broken = true
-		return
+		return false
 	}
 	if got != want {
 		c.fail("SetOffset", "unexpected-result", fmt.Sprintf("SetOffset(%d) with size %d returned %s, expected %s", off, size, got, want))
-		return
+		return false
 	}
 	if want != "ok" || off == size {
-		return
+		return false
 	}
 	if c.comp != 0 {
 		k := 0
@@ -741,16 +868,23 @@ func (c *c17Case) oracleSetOffset(off int64, got string) {
 		}
 		c.entries = c.entries[:k]
 		c.osize = off
-		if !c.dirty || k < c.rwIdx {
+		if behind && (!c.dirty || k < c.rwIdx) {
 			c.rwIdx = k
 		}
 	} else {
 		c.data = c.data[:off]
 	}
+	if !behind {
+		// nothing at or after the target has reached the file system: the rewind happened inside the write buffer
+		c.r.Count("setoff.rewind.buffer-only(no-bytes-behind)")
+		return true
+	}
+	c.r.Count("setoff.rewind.bytes-behind")
 	if !c.dirty || off < c.rwFloor {
 		c.rwFloor = off
 	}
 	c.dirty = true
+	return true
 }
 
 // returns true when the discard was accepted (the caller then sweeps [floor, size))
@@ -845,7 +979,18 @@ func (c *c17Case) genOffset(rng *hx.Rng, past int64) int64 {
 		fs = int64(c.cap)
 	}
 	var o int64
-	switch rng.Intn(10) {
+	switch rng.Intn(11) {
+	case 10:
+		// around the flushed/buffered boundary and inside the still-buffered tail
+		if c.flushMark >= 0 && c.flushMark <= size {
+			if rng.Bool() {
+				o = c.flushMark + int64(rng.Intn(3)) - 1
+			} else {
+				o = c.flushMark + int64(rng.Intn(int(size-c.flushMark)+1))
+			}
+		} else {
+			o = size - int64(rng.Intn(c17Min(int(size), c.cap)+1))
+		}
 	case 0:
 		o = 0
 	case 1:
@@ -964,6 +1109,9 @@ func (c *c17Case) genOp(rng *hx.Rng, thorough bool) []string {
 			p = 90 // close
 		}
 	}
+	if c.tail && !c.readOnly && rng.Chance(80) {
+		return c.genOpTail(rng)
+	}
 	switch {
 	case p < 36: // append
 		n := c.genAppendSize(rng)
@@ -1057,6 +1205,112 @@ func (c *c17Case) genOp(rng *hx.Rng, thorough bool) []string {
 	}
 }
 
+// genOpTail: the "buffer tail" profile. Appends small enough to stay in the write buffer, Flush (which with
+// retryableSync keeps the flushed bytes in the buffer until a Sync succeeds) far more often than Sync, rewinds and
+// reads aimed at the last buffer-full of bytes and at the flushed/buffered boundary — so that SetOffset, ReadAt and
+// the next Append are exercised in every combination of (flushed prefix held | not) x (unflushed tail | none) x
+// (target in the tail | on the boundary | in the file part).
+func (c *c17Case) genOpTail(rng *hx.Rng) []string {
+	k := c.kind
+	size := c.size()
+	win := int64(c17Min(c.cap, 64)) // the stretch of the log that can still be in the buffer
+	near := func() int64 { // an offset in the last `win` bytes, biased to the very end and to the flush mark
+		var o int64
+		switch rng.Intn(6) {
+		case 0:
+			o = size - 1
+		case 1:
+			o = c.flushMark + int64(rng.Intn(3)) - 1
+		case 2:
+			if c.flushMark >= 0 && c.flushMark < size {
+				o = c.flushMark + int64(rng.Intn(int(size-c.flushMark)))
+			} else {
+				o = size - int64(rng.Intn(3))
+			}
+		default:
+			o = size - int64(rng.Intn(int(win)+1))
+		}
+		if o < 0 {
+			o = 0
+		}
+		if o > size {
+			o = size
+		}
+		return o
+	}
+	p := rng.Intn(100)
+	switch {
+	case p < 32:
+		n := 1 + rng.Intn(c17Min(c.cap, 64)/3+1)
+		if rng.Chance(15) {
+			n = c.genAppendSize(rng) + 1
+		}
+		return []string{fmt.Sprintf("%s.append %s", k, hx.Hex(rng.Bytes(n)))}
+	case p < 52:
+		off := near()
+		n := size - off + int64(rng.Intn(3))
+		if rng.Chance(40) {
+			n = 1 + int64(rng.Intn(int(size-off)+2))
+		}
+		if n <= 0 {
+			n = 1
+		}
+		return []string{fmt.Sprintf("%s.read %d %d", k, n, off)}
+	case p < 60:
+		// burst: Flush (no Sync), an Append that stays in the buffer, a rewind into what that Append wrote (or exactly
+		// onto the flushed/buffered boundary, or one byte into the flushed part), overwrite, read across the seam
+		n := 1 + rng.Intn(c17Min(c.cap, 64)/3+1)
+		t := size + int64(rng.Intn(n+1)) - int64(rng.Intn(8)/7)
+		if t < 0 || (k == "m" && t < c.floor) {
+			t = size
+		}
+		m := 1 + rng.Intn(c17Min(c.cap, 64)/3+1)
+		from := size - int64(rng.Intn(3))
+		if from < 0 || (k == "m" && from < c.floor) {
+			from = size
+		}
+		c.r.Count("burst.flush-append-rewind-append-read")
+		rl := t + int64(m) - from + int64(rng.Intn(2))
+		if rl < 1 {
+			rl = 1
+		}
+		return []string{k + ".flush",
+			fmt.Sprintf("%s.append %s", k, hx.Hex(rng.Bytes(n))),
+			fmt.Sprintf("%s.setoff %d", k, t),
+			fmt.Sprintf("%s.append %s", k, hx.Hex(rng.Bytes(m))),
+			fmt.Sprintf("%s.read %d %d", k, rl, from)}
+	case p < 70:
+		off := near()
+		if off == size && size > 0 && rng.Chance(80) {
+			off = size - 1
+		}
+		if k == "m" && off < c.floor {
+			off = c.floor
+		}
+		if rng.Chance(50) && off < size {
+			// rewind and overwrite at once: the next Append must start exactly at the target
+			n := 1 + rng.Intn(c17Min(c.cap, 64)/3+1)
+			return []string{fmt.Sprintf("%s.setoff %d", k, off), fmt.Sprintf("%s.append %s", k, hx.Hex(rng.Bytes(n)))}
+		}
+		return []string{fmt.Sprintf("%s.setoff %d", k, off)}
+	case p < 84:
+		return []string{k + ".flush"}
+	case p < 88:
+		return []string{k + ".sync"}
+	case p < 91:
+		return []string{k + ".size"}
+	case p < 94:
+		return []string{k + ".offset"}
+	case p < 96:
+		if k == "s" {
+			return []string{"s.copy"}
+		}
+		return []string{fmt.Sprintf("m.copy %d", (c.floor/int64(c.fileSize))*int64(c.fileSize))}
+	default:
+		return []string{k + ".close"}
+	}
+}
+
 func c17Min(a, b int) int {
 	if a < b {
 		return a
@@ -1102,6 +1356,16 @@ func (c *c17Case) genNew(rng *hx.Rng, comp int) string {
 		auto = true
 	}
 	cap := c17GenCap(rng)
+	if c.tail {
+		// the profile needs room in the buffer and (mostly) the default retryable sync
+		if rng.Chance(75) {
+			retry = true
+			auto = auto || rng.Chance(70)
+		}
+		if cap < 4 && rng.Chance(80) {
+			cap = 4 + rng.Intn(61)
+		}
+	}
 	if c.kind == "s" {
 		pre := 0
 		if rng.Chance(15) && comp == 0 {
@@ -1131,11 +1395,22 @@ func newC17Case(r *hx.Result, kind string) *c17Case {
 	return c
 }
 
+var errC17Abort = errors.New("case aborted after a panic of the code under test")
+
+// c17Done: a case that was aborted by a (recorded) panic is finished, not a harness error
+func c17Done(err error) error {
+	if errors.Is(err, errC17Abort) {
+		return nil
+	}
+	return err
+}
+
 func (c *c17Case) cleanup() {
+	defer os.RemoveAll(c.dir)
+	defer func() { recover() }() // Close of a handle that already panicked may panic again
 	if c.app != nil && !c.closed {
 		c.app.Close()
 	}
-	os.RemoveAll(c.dir)
 }
 
 // a scripted case (known-finding probes, replays)
@@ -1149,7 +1424,7 @@ func c17Script(r *hx.Result, ops []string, recorded bool) error {
 	defer c.cleanup()
 	for _, l := range ops {
 		if _, err := c.exec(l); err != nil {
-			return fmt.Errorf("%q: %w", l, err)
+			return c17Done(fmt.Errorf("%q: %w", l, err))
 		}
 	}
 	return nil
@@ -1159,13 +1434,21 @@ var c17LastNew string
 var c17Trace = os.Getenv("VERIF_C17_TRACE") != ""
 
 func c17RandomCase(r *hx.Result, rng *hx.Rng, kind string, comp int, nops int, thorough bool) error {
+	return c17Done(c17RandomCase1(r, rng, kind, comp, nops, thorough))
+}
+
+func c17RandomCase1(r *hx.Result, rng *hx.Rng, kind string, comp int, nops int, thorough bool) error {
 	r.NextCase()
 	c := newC17Case(r, kind)
 	defer c.cleanup()
+	c.tail = comp == 0 && rng.Chance(35)
 	if _, err := c.exec(c.genNew(rng, comp)); err != nil {
 		return err
 	}
 	r.Count(fmt.Sprintf("case.%s.comp%d", kind, comp))
+	if c.tail {
+		r.Count("case.profile.buffer-tail")
+	}
 	defer func() { c17LastNew = fmt.Sprintf("%s ops=%d size=%d", c.ops[0], len(c.ops), c.size()) }()
 	if c.kind == "m" {
 		r.Count(fmt.Sprintf("case.m.fileSize.log2=%d", bitlen(uint64(c.fileSize))))
@@ -1227,6 +1510,118 @@ func c17RandomCase(r *hx.Result, rng *hx.Rng, kind string, comp int, nops int, t
 		r.Sample(map[string]interface{}{"kind": c.name, "new": c.ops[0], "ops": len(c.ops), "final_size": c.size(), "tail": c.ops[len(c.ops)-c17Min(4, len(c.ops)):]})
 	}
 	return nil
+}
+
+// ---- small-scope enumeration ----
+// EVERY word of length 4 over {append 1 byte, append 3 bytes, Flush, Sync, SetOffset(size-1), SetOffset(size-3)} is run
+// on a fresh appendable with an 8-byte (sometimes 4/64-byte) write buffer, followed by a fixed epilogue that observes
+// everything the byte-log contract promises: the offset returned by the next Append, a read of the whole log, Sync, the
+// same read, Size, Close, re-Open, the same read and Size again (Offset()/Size() are checked after every accepted rewind
+// anyway). The sync mode (retryable/auto), single vs multi-file (chunk size 5 or 16) and the buffer size are drawn per
+// word. The random streams reach these buffer states only by luck; here every order of flush / sync / append / rewind
+// on a small buffer is covered in every run.
+var c17ScopeAlphabet = []string{"a1", "a3", "f", "s", "r1", "r3"}
+
+func c17ScopeWord(r *hx.Result, rng *hx.Rng, word []string) error {
+	return c17Done(c17ScopeWord1(r, rng, word))
+}
+
+func c17ScopeWord1(r *hx.Result, rng *hx.Rng, word []string) error {
+	r.NextCase()
+	kind := "s"
+	if rng.Chance(40) {
+		kind = "m"
+	}
+	c := newC17Case(r, kind)
+	defer c.cleanup()
+	retry, auto := true, true
+	if rng.Chance(40) {
+		retry, auto = rng.Bool(), rng.Bool()
+	}
+	cap := int(c17Pick(rng, 8, 8, 8, 4, 64))
+	var first string
+	if kind == "s" {
+		first = fmt.Sprintf("s.new %d %s %s 0 - 0", cap, c17b01(retry), c17b01(auto))
+	} else {
+		first = fmt.Sprintf("m.new %d %d %d %s %s 0 - 0", c17Pick(rng, 5, 16), cap, 1+rng.Intn(3), c17b01(retry), c17b01(auto))
+	}
+	r.Count(fmt.Sprintf("scope.case.%s.retry=%v.auto=%v", kind, retry, auto))
+	run := func(l string) error {
+		if _, err := c.exec(l); err != nil {
+			return fmt.Errorf("small-scope case %d %v: %q: %w", r.Case(), word, l, err)
+		}
+		return nil
+	}
+	if err := run(first); err != nil {
+		return err
+	}
+	back := func(n int64) string {
+		o := c.size() - n
+		if o < 0 {
+			o = 0
+		}
+		return fmt.Sprintf("%s.setoff %d", kind, o)
+	}
+	whole := func() string {
+		if c.size() == 0 {
+			return kind + ".size"
+		}
+		return fmt.Sprintf("%s.read %d 0", kind, c.size())
+	}
+	for _, w := range append(append([]string{}, word...), "a2", "whole", "s", "whole", "close", "reopen", "size") {
+		var l string
+		switch w {
+		case "a1", "a2", "a3":
+			l = fmt.Sprintf("%s.append %s", kind, hx.Hex(rng.Bytes(int(w[1]-'0'))))
+		case "f":
+			l = kind + ".flush"
+		case "s":
+			l = kind + ".sync"
+		case "r1":
+			l = back(1)
+		case "r3":
+			l = back(3)
+		case "whole":
+			l = whole()
+		case "size", "close":
+			l = kind + "." + w
+		case "reopen":
+			l = fmt.Sprintf("s.reopen %d %s %s 0", c.cap, c17b01(c.retry), c17b01(c.auto))
+			if kind == "m" {
+				l = fmt.Sprintf("m.reopen %d %d %s %s 0", c.cap, c.maxOpen, c17b01(c.retry), c17b01(c.auto))
+			}
+		}
+		if err := run(l); err != nil {
+			return err
+		}
+	}
+	return nil
+}
+
+func c17SmallScope(r *hx.Result, rng *hx.Rng, length int) error {
+	n := len(c17ScopeAlphabet)
+	total := 1
+	for i := 0; i < length; i++ {
+		total *= n
+	}
+	word := make([]string, length)
+	for w := 0; w < total; w++ {
+		x := w
+		for i := length - 1; i >= 0; i-- {
+			word[i] = c17ScopeAlphabet[x%n]
+			x /= n
+		}
+		if err := c17ScopeWord(r, rng.Fork(), word); err != nil {
+			return err
+		}
+		if w%100 == 99 {
+			if err := r.Flush(); err != nil {
+				return err
+			}
+		}
+	}
+	r.CountN("scope.words", total)
+	return r.Flush()
 }
 
 // compressed formats: the log is a sequence of entries addressed by the offsets Append returned
@@ -1438,7 +1833,7 @@ var c17ProbePrealloc = []string{
 }
 
 func runC17(r *hx.Result, rng *hx.Rng, thorough bool, replay string) error {
-	r.Rule = "cases: random operation sequences (append/read/reader/setOffset/flush/sync/discardUpto/switchReadOnly/close/reopen/copy/size/metadata) on real singleapp and multiapp instances in temp dirs × options (write buffer 1..64|4096, chunk size 1..64|default, maxOpenedFiles 1..3|10, retryable/auto sync, prealloc, compression none for the model stream and flate/gzip/lzw/zlib for the oracle-only stream). An evaluation is one read compared with the byte-array oracle; non-trivial when it has a non-empty range; distinct by (kind, chunk size, offset, length, size)."
+	r.Rule = "cases: all 1296 words of length 4 over {append 1, append 3, flush, sync, setOffset(size-1), setOffset(size-3)} on an 8|4|64-byte write buffer with a fixed observing epilogue (small-scope enumeration), then random operation sequences (append/read/reader/setOffset/flush/sync/discardUpto/switchReadOnly/close/reopen/copy/size/metadata; 35% of the cases in the 'buffer tail' profile: appends that stay in the write buffer, Flush without Sync, rewinds/reads aimed at the buffered tail) on real singleapp and multiapp instances in temp dirs × options (write buffer 1..64|4096, chunk size 1..64|default, maxOpenedFiles 1..3|10, retryable/auto sync, prealloc, compression none for the model stream and flate/gzip/lzw/zlib for the oracle-only stream). An evaluation is one read compared with the byte-array oracle; non-trivial when it has a non-empty range; distinct by (kind, chunk size, offset, length, size)."
 	if replay != "" {
 		b, err := os.ReadFile(replay)
 		if err != nil {
@@ -1468,6 +1863,7 @@ func runC17(r *hx.Result, rng *hx.Rng, thorough bool, replay string) error {
 		r.Notes = append(r.Notes, fmt.Sprintf("phase %s done at %.1fs", name, time.Since(t0).Seconds()))
 	}
 	nS, nM, nZ, nops, nConc := 200, 240, 96, 70, 4
+	scopeLen := 4
 	if ph := os.Getenv("VERIF_C17_PHASES"); ph != "" { // debugging aid: e.g. "z" runs only the compressed stream
 		if !strings.Contains(ph, "s") {
 			nS = 0
@@ -1481,9 +1877,24 @@ func runC17(r *hx.Result, rng *hx.Rng, thorough bool, replay string) error {
 		if !strings.Contains(ph, "c") {
 			nConc = 0
 		}
+		if !strings.Contains(ph, "w") {
+			scopeLen = 0
+		}
 	}
 	if thorough {
 		nS, nM, nZ, nops, nConc = 1200, 1800, 500, 140, 24
+	}
+	if scopeLen > 0 {
+		passes := 1
+		if thorough {
+			passes = 3 // the same words under other draws of (kind, sync mode, buffer, chunk size)
+		}
+		for i := 0; i < passes; i++ {
+			if err := c17SmallScope(r, rng.Fork(), scopeLen); err != nil {
+				return err
+			}
+		}
+		phase("small-scope")
 	}
 	for i := 0; i < nS; i++ {
 		if err := c17RandomCase(r, rng.Fork(), "s", 0, 10+rng.Intn(nops), thorough); err != nil {
